@@ -338,6 +338,15 @@ func runShapes(f *mbt.Flags) {
 		default:
 			cnt["tx_failed"]++
 		}
+		if executed && s.Conv != "" && s.Conv != "none" {
+			cnt["conv_executed"]++
+			if s.Conv == "T" || s.Conv == "L" {
+				cnt["conv_library_executed"]++ // re-typed as a library type with mutating methods
+				if pathTyp[s.Path] == "sliceInt" || pathTyp[s.Path] == "sliceStr" || pathTyp[s.Path] == "sliceFl" || pathTyp[s.Path] == "namedInts" {
+					cnt["conv_library_slice_executed"]++
+				}
+			}
+		}
 		if executed {
 			cnt["executed"]++
 			cnt["executed_"+s.Cls]++
@@ -385,6 +394,9 @@ func runShapes(f *mbt.Flags) {
 				} else {
 					key := "C07:foreign-write:" + s.Ctx + ":" + s.Wk
 					what := fmt.Sprintf("shape %s: every write statement is in attacker-declared code (%s), yet the victim realm's persisted state changed (tx %s, Dump() changed=%v, %d raw oid entries changed)", s.id(), s.Wcode, o.Kind, o.DumpChanged, len(o.RawDiff))
+					if s.Conv != "" && s.Conv != "none" {
+						what = fmt.Sprintf("shape %s: attacker-declared code re-typed a victim-owned value (conversion target %q) and wrote through the converted value (last frame: code %s); the victim realm's persisted state changed (tx %s, Dump() changed=%v, %d raw oid entries changed)", s.id(), s.Conv, s.Wcode, o.Kind, o.DumpChanged, len(o.RawDiff))
+					}
 					if s.MutEph && !s.MutDoc && o.Kind == "ok" {
 						key = "C07:foreign-write:ephemeral-package-funcdecl-runs-with-callers-realm"
 						what = "a top-level function declared in the MsgRun (/e/) package, invoked by victim-authorised code as a callback, ran with the victim's storage context and wrote the victim's persisted objects (borrow rule #1 is not applied to ephemeral realms); " + what
@@ -406,6 +418,9 @@ func runShapes(f *mbt.Flags) {
 		default: // control | open: must mutate
 			if o.Kind == "ok" && o.DumpChanged {
 				cnt[s.Cls+"_mutated"]++
+				if s.Path == "swapown" {
+					cnt["ctl_swapown_mutated"]++ // the victim itself writes through a converted slice via a library method
+				}
 			} else if executed {
 				cnt[s.Cls+"_inert"]++
 				mbt.Emit(map[string]any{"kind": "inert", "shape": s.id(), "tx": o.Kind, "log": o.Log})
